@@ -161,6 +161,15 @@ func (c *genCtx) boolExpr(d int) node {
 			return c.intLeaf() // integers as conditions: 0 is falsy
 		}
 	}
+	if d > 0 && c.r.intn(8) == 0 {
+		// a call (also a self call) directly in test position
+		if c.self != nil && c.r.bool() {
+			return c.selfCall(d)
+		}
+		if len(c.fns) > 0 {
+			return c.callExpr(d)
+		}
+	}
 	op := pick(c.r, []string{"==", "!=", "<", ">", "<=", ">="})
 	e := nApp(op, c.arg().intExpr(d-1), c.arg().intExpr(d-1))
 	if c.r.intn(6) == 0 {
